@@ -411,6 +411,12 @@ func (e *CoreExtension) filterDate(value interface{}, args ...interface{}) (inte
 				// Use current time instead of zero time
 				dt = time.Now()
 			}
+		case *time.Time:
+			// A pointer to a time value is that time value (a nil pointer is an empty value)
+			if v == nil {
+				return e.filterDate(nil, args...)
+			}
+			return e.filterDate(*v, args...)
 		case string:
 			// Handle empty strings and "now"
 			if v == "" || v == "0" {
